@@ -103,12 +103,27 @@ func NewRequestServer(rwc io.ReadWriteCloser, h Handlers, options ...RequestServ
 
 // New Open packet/Request
 func (rs *RequestServer) nextRequest(r *Request) string {
+	rs.reserveHandle(r)
+	return rs.publishRequest(r)
+}
+
+// reserveHandle assigns the next handle to the Request without making it visible to other workers.
+func (rs *RequestServer) reserveHandle(r *Request) {
 	rs.mu.Lock()
 	defer rs.mu.Unlock()
 
 	rs.handleCount++
 
 	r.handle = strconv.Itoa(rs.handleCount)
+}
+
+// publishRequest makes the Request reachable through its handle.
+// It must only be called once the Request has been fully set up by open or opendir,
+// as read/write workers can look it up concurrently from then on.
+func (rs *RequestServer) publishRequest(r *Request) string {
+	rs.mu.Lock()
+	defer rs.mu.Unlock()
+
 	rs.openRequests[r.handle] = r
 
 	return r.handle
@@ -255,19 +270,25 @@ func (rs *RequestServer) packetWorker(ctx context.Context, pktChan chan orderedR
 			}
 		case *sshFxpOpendirPacket:
 			request := requestFromPacket(ctx, pkt, rs.startDirectory)
-			handle := rs.nextRequest(request)
+			rs.reserveHandle(request)
 			rpkt = request.opendir(rs.Handlers, pkt)
-			if _, ok := rpkt.(*sshFxpHandlePacket); !ok {
-				// if we return an error we have to remove the handle from the active ones
-				rs.closeRequest(handle)
+			if _, ok := rpkt.(*sshFxpHandlePacket); ok {
+				// only now may other workers find the request through its handle
+				rs.publishRequest(request)
+			} else {
+				// if we return an error the handle never becomes active
+				request.close()
 			}
 		case *sshFxpOpenPacket:
 			request := requestFromPacket(ctx, pkt, rs.startDirectory)
-			handle := rs.nextRequest(request)
+			rs.reserveHandle(request)
 			rpkt = request.open(rs.Handlers, pkt)
-			if _, ok := rpkt.(*sshFxpHandlePacket); !ok {
-				// if we return an error we have to remove the handle from the active ones
-				rs.closeRequest(handle)
+			if _, ok := rpkt.(*sshFxpHandlePacket); ok {
+				// only now may other workers find the request through its handle
+				rs.publishRequest(request)
+			} else {
+				// if we return an error the handle never becomes active
+				request.close()
 			}
 		case *sshFxpFstatPacket:
 			handle := pkt.getHandle()
